@@ -432,6 +432,8 @@ def binary_scenarios():
     add(_un("m"), _un("m", "complex128"), "uncastable-result")
     add(_un("m"), _un("cm", shape="0d"), "valid")
     add(_un("m", shape="2d"), _un("cm"), "valid")
+    add(_un("m", shape="2d"), _un("cm", shape="2d"), "valid")
+    add(_un("m", shape="2d", strided=True), _un("km", shape="2d", strided=True), "valid")
     add(_un("m", shape="0d"), _un("cm", shape="0d"), "valid")
     add(_un("m"), _un("m", "int64"), "nonconstant-exponent")
     return S
